@@ -54,7 +54,7 @@ TReset ==
   /\ mine' = [a \in Apps |-> {}] /\ cur' = [a \in Apps |-> 0]
   /\ subs' = {} /\ nextId' = 1 /\ srvSubs' = {}
   /\ srvUp' = TRUE /\ srvSess' = TRUE /\ conn' = "up" /\ sess' = TRUE /\ errq' = "none"
-  /\ pausech' = 0 /\ resumech' = 0 /\ mux' = "none" /\ lpc' = "a.pause" /\ pubOut' = "none"
+  /\ pausech' = 0 /\ resumech' = 0 /\ mux' = "none" /\ lpc' = "a.pause" /\ pubOut' = "none" /\ pubSub' = 0
   /\ mpc' = "idle" /\ action' = "none" /\ activeSubs' = 0 /\ toRecreate' = {} /\ toRepublish' = {} /\ restored' = FALSE
   /\ ctxDone' = FALSE /\ dials' = 1 /\ dialsAtClose' = 0 /\ faults' = 0
   /\ seq' = 0 /\ pend' = {} /\ inflight' = {} /\ ackcnt' = [n \in 1..(MaxPub + 1) |-> 0] /\ datas' = {} /\ lost' = {}
@@ -105,11 +105,10 @@ TLoopEv ==
      /\ \A x \in (AckSet(E.acks) \cap mustAck) \cap acked : PrintT("ACKTWICE " \o ToString(l) \o " " \o ToString(x[1]) \o " " \o ToString(x[2]))
      /\ \A x \in (mustAck \ acked) \ AckSet(E.acks) : PrintT("ACKMISSING " \o ToString(l) \o " " \o ToString(x[1]) \o " " \o ToString(x[2]))
      /\ UNCHANGED <<lastState, closedObs, mustAck, acked>>
-  \/ /\ IsEv("loop", "pub.lock") /\ lpc = "p.lock" /\ Confirm("loop")
+  \/ /\ IsEv("loop", "pub.lock") /\ lpc = "p.lock" /\ (E.msub = 0 \/ pubSub = E.msub) /\ Confirm("loop")
      /\ acked' = acked \cup carry /\ carry' = {}
      /\ UNCHANGED <<lastState, closedObs, mustAck>>
   \/ /\ IsEv("loop", "pub.locked") /\ lpc = "p.locked" /\ Confirm("loop")
-     /\ ((E.ndata > 0) <=> (seq \in datas))
      /\ mustAck' = IF E.ndata > 0 /\ E.known = 1 THEN mustAck \cup {<<E.sub, E.seq>>} ELSE mustAck
      /\ UNCHANGED <<lastState, closedObs, acked, carry>>
   \/ IsEv("loop", "sub.pause.send") /\ lpc = "ps.send" /\ Confirm("loop") /\ UNCHANGED obs
